@@ -552,7 +552,8 @@ func (e *dsExplorer) replayGlobal(tr []dsEv) []*dsNode {
 
 // moves returns the free move (if any) and the deviations of g.
 func (e *dsExplorer) moves(g *dsGlobal) (free *dsEv, devs []dsEv) {
-	best := ""
+	best, bestFuture := "", ""
+	var future *dsEv
 	var deliver []dsEv
 	for _, p := range g.Pend {
 		dest := dsPendDest(p)
@@ -566,13 +567,30 @@ func (e *dsExplorer) moves(g *dsGlobal) (free *dsEv, devs []dsEv) {
 		}
 		ev := dsEv{K: dsDeliver, N: uint8(dest), M: m}
 		rk := e.w.msg(int(m)).rank + string(rune('0'+dest))
-		if free == nil || rk < best {
+		if e.w.msg(int(m)).Round > e.local(g.L[dest]).round {
+			// gossip does not hand a node messages of a round it has not reached (it would drop a proposal and its parts);
+			// by default such a delivery waits: it is the free move only when nothing else, not even a timeout, is enabled
+			if future == nil || rk < bestFuture {
+				future, bestFuture = &dsEv{K: dsDeliver, N: uint8(dest), M: m}, rk
+			}
+		} else if free == nil || rk < best {
 			free, best = &dsEv{K: dsDeliver, N: uint8(dest), M: m}, rk
 		}
 		deliver = append(deliver, ev)
 	}
+	if free == nil && future != nil {
+		anyTimeout := false
+		for _, lid := range g.L {
+			if l := e.local(lid); l.active && (l.armed || (!e.w.EagerOwn && l.ownLen > 0)) {
+				anyTimeout = true
+			}
+		}
+		if !anyTimeout {
+			free = future
+		}
+	}
 	for _, ev := range deliver {
-		if ev != *free {
+		if free == nil || ev != *free {
 			devs = append(devs, ev)
 		}
 		devs = append(devs, dsEv{K: dsDelay, N: ev.N, M: ev.M})
